@@ -79,6 +79,7 @@ def make_case(tier, seed, index):
             "seed": (seed * 9176 + index) & 0xFFFFFF, "benign": index % 4 == 3,
             # the application runs the library's logger at DEBUG level
             "debug_log": index % 7 == 2,
+            "tz": "CET-1CEST,M3.5.0,M10.5.0/3" if index % 2 else "EST5EDT,M3.2.0,M11.1.0",
             # a peer that appends surplus bytes to every RTU answer (accepted by the library, see C02)
             "trailing": ["", "", "0000", "a55a", "12345678"][(index // 2) % 5] if tr == "udp" and fam != "ES" else ""}
 
@@ -144,7 +145,10 @@ def domain_value(cls, scale, j, rnd):
         b = [0, 1, -1, 0x7FFFFFFF, -0x80000000]
         return b[j] if j < len(b) else rnd.randrange(-0x80000000, 0x80000000)
     if cls == "Timestamp":
-        b = [(2000, 1, 1, 0, 0, 0), (2255, 12, 31, 23, 59, 59), (2024, 2, 29, 12, 0, 0), (2023, 5, 17, 10, 11, 12)]
+        # ... and wall-clock times that do not exist / exist twice in zones with daylight saving (the library handles
+        # naive datetimes; the process time zone must not matter - half the cases run under TZ=CET/CEST)
+        b = [(2000, 1, 1, 0, 0, 0), (2255, 12, 31, 23, 59, 59), (2024, 2, 29, 12, 0, 0), (2023, 5, 17, 10, 11, 12),
+             (2022, 3, 27, 2, 30, 0), (2023, 3, 26, 2, 0, 0), (2022, 10, 30, 2, 30, 0), (2024, 3, 10, 2, 30, 0)]
         t = b[j] if j < len(b) else (2000 + rnd.randrange(256), rnd.randint(1, 12), rnd.randint(1, 28), rnd.randrange(24),
                                      rnd.randrange(60), rnd.randrange(60))
         return datetime(*t)
